@@ -34,13 +34,19 @@ pub struct Row {
     pub frags: usize,
 }
 
+pub const RUNAWAY: usize = 1 << 18;
+
 /// Runs tri_fill and returns the emitted scanlines (Err = it panicked).
 pub fn rasterize(v: [[f32; 2]; 3]) -> Result<Vec<Row>, String> {
     catch(|| {
         let mut rows = vec![];
         let verts = v.map(|p| vertex(pt3(p[0], p[1], 1.0), ()));
         tri_fill(verts, |mut sl| {
-            let n = sl.fragments().count();
+            // a runaway rasteriser (billions of fragments or rows) must become a failure, not a hang
+            let n = sl.fragments().take(RUNAWAY + 1).count();
+            if n > RUNAWAY || rows.len() > RUNAWAY {
+                panic!("runaway rasterisation: row y={} has more than {RUNAWAY} fragments, or more than {RUNAWAY} rows were emitted", sl.y);
+            }
             rows.push(Row { y: sl.y, x0: sl.xs.start, x1: sl.xs.end, frags: n });
         });
         rows
